@@ -68,3 +68,12 @@ cls("HashObj", alg="U", fed_len="int", fed_src="U", fed_good="bool")
 
 cls("DatasetFiller", _dataset_filler_context="ref:_DatasetFillerContext", _auto_update_dataset="bool",
     _dataset="ref:DatasetWriting", _updated_infos="list:ref:ShardListInfo")
+
+# concrete shard writers (Writer = abstract view used by Shard; nrec is a ghost
+# = number of examples accepted: len(_examples) / common length of _buffer's
+# lists / records handed to the TFRecordWriter)
+cls("ShardWriterBase", base="Writer", dataset_structure="ref:DatasetStructure", _shard_file="U")
+cls("ShardWriterFlatBuffer", base="ShardWriterBase", _examples="list:U", _builder="optU")
+cls("ShardWriterTFRec", base="ShardWriterBase", _tf_shard_writer="optref:TFWriter")
+cls("TFWriter", nwritten="int", tfclosed="bool", tfpath="U")
+cls("CompressedFile", compression_type="U")
